@@ -267,12 +267,13 @@ class PtySession:
             return False
 
     def wait_listening(self, timeout=90.0):
+        """True once the port answers; False if fzf is gone instead."""
         t0 = time.time()
         while time.time() - t0 < timeout:
             if self.port_open():
-                return
-            if self.exited():
-                raise Infra("fzf exited before listening; terminal output: %r" % self.stream()[-600:])
+                return True
+            if self.exited() or (os.path.exists(self.pid_path) and self.fzf_gone()):
+                return False
             time.sleep(0.01)
         raise Infra("fzf did not start listening; terminal output: %r" % self.stream()[-600:])
 
@@ -282,6 +283,8 @@ class PtySession:
             v = pred(self.stream())
             if v:
                 return v
+            if os.path.exists(self.pid_path) and self.fzf_gone():
+                return None
             if time.time() - t0 > timeout:
                 raise Infra("timeout waiting for %s; terminal output tail: %r" % (what, self.stream()[-400:]))
             time.sleep(0.005)
@@ -537,10 +540,13 @@ class Life:
 
     # ------------------------------------------------------------ steps
     def init(self):
-        self.s.wait_listening()
-        self.s.wait_stream(lambda b: PASTE_ON in b, timeout=90, what="renderer initialisation")
+        """False: fzf went away while starting (what is left is still observed and judged)."""
+        if not self.s.wait_listening() or not self.s.wait_stream(lambda b: PASTE_ON in b, timeout=90, what="renderer initialisation"):
+            self.note("fzf exited while starting")
+            return False
         self.s.drain()
         self.mark({"ev": "tio", "tio": self.s.termios_state()})
+        return True
 
     def post(self, body, final=False):
         try:
@@ -594,10 +600,10 @@ class Life:
             return
         if kind == "execute":
             self.wait_until(lambda: self.paste_count() > before, 60, "renderer resumed")
-        elif kind == "silent" and was == "cooked":
+        elif kind == "silent" and was == "cooked" and not self.requested:
             self.wait_until(lambda: self.s.termios_state() == "raw", 60, "raw mode again")
-        if not self.s.fzf_gone():
-            self.observe()
+        if not self.s.fzf_gone() and not self.requested:
+            self.observe()      # (once an exit has been asked for fzf may be on its way out: no quiescent point any more)
 
     def bgpause(self):
         if not self.wait_until(lambda: self.s.termios_state() == "cooked", 60, "renderer paused") and not self.s.fzf_gone():
@@ -776,14 +782,27 @@ class TmuxLife:
         return int(open(os.path.join(self.dir, "fzf.status")).read().strip())
 
     def init(self):
-        self.t.wait_listening(timeout=90)
+        """False: fzf went away while starting (what is left is still observed and judged)."""
         t0 = time.time()
-        while PASTE_ON not in self.stream():
+        while True:
+            if self.gone():
+                return False
+            try:
+                c = socket.create_connection(("127.0.0.1", self.t.port), timeout=0.5)
+                c.close()
+                break
+            except OSError:
+                pass
             if time.time() - t0 > 90:
+                raise Infra("tmux session: fzf did not start listening; screen:\n" + "\n".join(self.t.capture()))
+            time.sleep(0.01)
+        while PASTE_ON not in self.stream():
+            if time.time() - t0 > 120:
                 raise Infra("tmux session: renderer initialisation not seen; screen:\n" + "\n".join(self.t.capture()))
             if self.gone():
-                raise Infra("tmux session: fzf exited during start")
+                return False
             time.sleep(0.01)
+        return True
 
     def probe_alive(self):
         if self.gone():
